@@ -7,6 +7,14 @@ CLAIMED = {
          "the five character-class predicates are compared with independently transcribed tables for every Unicode scalar value (complete for that part); name syntax is enumerated for all strings up to length 2/3 over class representatives and sampled beyond with proptest; a green run of the second part means no counter-example among the generated names",
          "trusted: the interval tables in harness/src/oracle/chars.rs; acceptance observed via XmlDocument::from_raw; colon-containing PI targets/entity names not judged",
          "DESIGN.md section 5, C18"),
+ "C01": ("property-based testing (proptest): grammar-directed abstract documents rendered with random surface choices, compared with a by-construction expected infoset; metamorphic over renderings",
+         "generated search: every rendering of a generated abstract document must be accepted completely and the canonical tree (raw and merged-text view) and info-level document properties must equal the expectation the renderer derives from the abstract document; green = no counter-example among the generated documents of the measured feature distribution",
+         "trusted: the harness's own implementation of entity expansion, attribute-value normalisation/defaulting and namespace resolution (gen/adoc.rs); profile restrictions listed in evidence.assumptions; known findings are attributed through feature labels of the generated document",
+         "DESIGN.md section 5, C01"),
+ "C04": ("property-based testing (proptest): print/parse round trip and printer fixpoint over generated documents",
+         "generated search with a round-trip oracle: to_string() of every accepted generated document must re-parse completely to an equal document (canonical tree, document properties, library PartialEq) and print identically again",
+         "trusted: canonical extraction through public DOM accessors; ELEMENT declarations and DTD comments are not required to survive",
+         "DESIGN.md section 5, C04"),
 }
 ALL = ["C%02d" % i for i in range(1, 20)]
 PENDING_REASON = "check not built yet in this snapshot of /verif (work in progress; DESIGN.md section 5 describes the planned generated-search check)"
